@@ -117,9 +117,6 @@ func stringToInt(ss string) (int64, error) {
 	if ss == "" {
 		return 0, nil
 	}
-	if ss == "-0" {
-		return 0, strconv.ErrSyntax
-	}
 	if base := radixPrefix(ss); base != 0 {
 		if ss[2] == '+' || ss[2] == '-' {
 			// strconv.ParseInt would accept a sign here, NonDecimalIntegerLiteral does not
@@ -127,7 +124,12 @@ func stringToInt(ss string) (int64, error) {
 		}
 		return strconv.ParseInt(ss[2:], base, 64)
 	}
-	return strconv.ParseInt(ss, 10, 64)
+	i, err := strconv.ParseInt(ss, 10, 64)
+	if err == nil && i == 0 && ss[0] == '-' {
+		// "-0", "-00", ...: negative zero is not representable as an integer
+		return 0, strconv.ErrSyntax
+	}
+	return i, err
 }
 
 func (s asciiString) _toInt(trimmed string) (int64, error) {
